@@ -2,6 +2,7 @@ import Driver.Parse
 import Driver.Proxy
 import Driver.E2E
 import Driver.Sched
+import Driver.Prio
 import Driver.Flow
 import Driver.Hpack
 import Driver.Frame
@@ -58,6 +59,12 @@ def capRun (stream : Bytes) (cuts : List String) : String := Id.run do
     i := i + 1
     if c = "e" then
       st := Fp.Capture.read st [] false
+    else if c.endsWith "E" then
+      -- n bytes delivered together with an error: handed to the reader, not tee'd (Read only hijacks when err == nil)
+      let n := (c.dropEnd 1).toString.toNat?.getD 0
+      let ch := rest.take n
+      rest := rest.drop n
+      st := Fp.Capture.read st ch false
     else
       let n := c.toNat?.getD 0
       let ch := rest.take n
